@@ -158,6 +158,22 @@ func sIte(c, a, b *Sym) *Sym {
 	if c.Op == "not" && len(c.Kids) == 1 {
 		c, a, b = c.Kids[0], b, a
 	}
+	// ite(c, X, ite(d, X, Y)) = ite(c || d, X, Y): two paths that deliver the same value are one case
+	if b.Op == "ite" && len(b.Kids) == 3 && b.Kids[1].String() == a.String() {
+		return sIte(sOr(c, b.Kids[0]), a, b.Kids[2])
+	}
+	if b.Op == "ite" && len(b.Kids) == 3 && b.Kids[2].String() == a.String() {
+		// ite(c, X, ite(d, Y, X)) = ite(!c && d, Y, X)
+		return sIte(sAnd(sNot(c), b.Kids[0]), b.Kids[1], a)
+	}
+	if a.Op == "ite" && len(a.Kids) == 3 && a.Kids[1].String() == b.String() {
+		// ite(c, ite(d, Y, X), Y) = ite(c && !d, X, Y)
+		return sIte(sAnd(c, sNot(a.Kids[0])), a.Kids[2], b)
+	}
+	if a.Op == "ite" && len(a.Kids) == 3 && a.Kids[2].String() == b.String() {
+		// ite(c, ite(d, X, Y), Y) = ite(c && d, X, Y)
+		return sIte(sAnd(c, a.Kids[0]), a.Kids[1], b)
+	}
 	k := a.Kind
 	if k == "" {
 		k = b.Kind
